@@ -129,7 +129,7 @@ class TypesBuild:
                         arms.append('        "plain:%s:%s" => probe::run_plain::<%s::com::verif::%s>(req),' % (cname, name, cname, name))
             main = H.DISPATCH_MAIN % {"mods": mods, "arms": "\n".join(arms)}
             crate = os.path.join(self.root, "ws", "bin%d" % ci)
-            H.write_crate(crate, "e2bin%d" % ci, main_rs=main)
+            H.write_crate(crate, "e2%sbin%d" % (self.tier[0], ci), main_rs=main)
             # members of one workspace so that a single cargo invocation builds them in parallel
             toml = open(os.path.join(crate, "Cargo.toml")).read().replace("[workspace]\n\n", "")
             H.sync_file(os.path.join(crate, "Cargo.toml"), toml)
@@ -153,7 +153,7 @@ class TypesBuild:
 
     def probe(self, ci):
         if ci not in self.probes:
-            self.probes[ci] = H.Probe(os.path.join(H.E2_TARGET, "debug", "e2bin%d" % ci))
+            self.probes[ci] = H.Probe(os.path.join(H.E2_TARGET, "debug", "e2%sbin%d" % (self.tier[0], ci)))
         return self.probes[ci]
 
     def close(self):
